@@ -112,10 +112,10 @@ def run(tier="quick", seed=0):
     pr.model_check("MCOptical", workers=4)
     jobs = []
     for j in range(14 if thorough else 7):
-        jobs.append({"t": "scale", "seed": seed * 100 + j, "n": 60 if thorough else 14, "alts": [33.0, 400.0, 2000.0] if j % 2 else [100.0, 36000.0, 525.0]})
+        jobs.append({"t": "scale", "seed": seed * 100 + j, "n": 150 if thorough else 14, "alts": [33.0, 400.0, 2000.0] if j % 2 else [100.0, 36000.0, 525.0]})
     cfgs = [(2.5, 0.2, 10.0, 525.0), (1.0, 1.0, 1.0, 525.0), (10.0, 0.05, 0.01, 33.0), (0.3, 0.9, 1e-6, 2000.0)]
     for j in range(14 if thorough else 7):
-        jobs.append({"t": "eas", "seed": seed * 100 + 50 + j, "n": 120 if thorough else 36, "cfgs": [cfgs[j % 4], cfgs[(j + 1) % 4]]})
+        jobs.append({"t": "eas", "seed": seed * 100 + 50 + j, "n": 300 if thorough else 36, "cfgs": [cfgs[j % 4], cfgs[(j + 1) % 4]]})
     res = par.pmap(_dispatch, jobs, workers=14)
     ev = [e for r in res for e in r]
     pr.validate("TraceOptical", ev, name="optical-chain", chunks=8)
